@@ -1,14 +1,14 @@
 CONSTANTS
-  Mods <- DiamondMods
-  Imports <- DiamondImports
-  Targets <- DiamondTargets
-  Variants <- V2
-  BodyOf <- Body2
+  Mods <- PairMods
+  Imports <- PairImports
+  Targets <- PairTargets
+  Variants <- V124
+  BodyOf <- Body124
   MaxOps = 6
-  MaxT = 0
-  AstHash = TRUE
+  MaxT = 2
+  AstHash = FALSE
   MaxTorn = 1
-  TransitiveKey = FALSE
+  TransitiveKey = TRUE
   DeepHeader = FALSE
   StoreGated = TRUE
   WithCache = TRUE
